@@ -215,7 +215,11 @@ func (f *fAdapterTransport) Request(fctx FContext, payload []byte) (thrift.TTran
 	resultC := make(chan []byte, 1)
 	errorC := make(chan error, 1)
 
-	f.registry.Register(fctx, resultC)
+	if err := f.registry.Register(fctx, resultC); err != nil {
+		// The context is in flight for another request: do not send, and do
+		// not unregister the other request's channel.
+		return nil, thrift.NewTTransportException(TRANSPORT_EXCEPTION_UNKNOWN, err.Error())
+	}
 	defer f.registry.Unregister(fctx)
 
 	ctx, cancelFn := ToContext(fctx)
